@@ -65,6 +65,8 @@ class dictattr(dict):
             branch = res
             for k in key[:-1]:
                 if k in branch:
+                    if copy and hasattr(branch[k], 'copy'): ## the branches along the path belong to self: delete from copies of them
+                        branch[k] = branch[k].copy()
                     branch = branch[k]
                 else:
                     return res
